@@ -272,6 +272,9 @@ def call(op, objs, args, entry="method"):
         return (getattr(operator, op)(objs[0], objs[1]),)
     if op == "smul":
         return (x * _scalar(a["k"]),)
+    if op == "scale_pow2":
+        # exact in binary floating point: used to run operations on tiny / huge numbers and scale back
+        return (x * (2.0 ** int(a["e"])),)
     if op == "rsmul":
         return (_scalar(a["k"]) * x,)
     if op == "sdiv":
@@ -439,6 +442,9 @@ class Session:
                 outcome, exc, res = "raise", type(e).__name__, ()
             if outcome == "ok":
                 for r, v in zip(st["out"], res):
+                    if args.get("inplace") and st["in"] and r == st["in"][0]:
+                        # an in-place call is judged by what the OPERAND holds afterwards, not by what is returned
+                        continue
                     regs[r] = v
             self._emit(st["op"], args, st["in"], st["out"] if outcome == "ok" else [],
                        st.get("entry", "method"), outcome, exc)
